@@ -136,4 +136,26 @@ LEVELS = {
   'note': 'Trusted: Lean kernel; hub model; E2. Known finding D5 (over-allocation by 1 unit for >=3 batches under a >99% slash of unbonding stake).',
   'technique': 'Lean 4 theorems on withdraw / release arithmetic; funding, payout, double-pay and unfunded-claim oracles on every implementation step',
  },
+ 'C13': {
+  'text': 'C13_remove_validator: a successful RemoveValidator is by the owner, removes the address, never empties the registry, and (when the hub holds a movable delegation there) emits RedelegateProxy with a plan that sums to exactly the whole delegation (C12), targets only still-registered validators in positive amounts, followed by an index update; '
+          'C13_hub_proxy_forwards: the hub accepts the proxy only from the registry and forwards it one-to-one; C13_redelegate_moves_exactly / C13_nothing_left: each Redelegate moves exactly its amount between two validators, total delegated unchanged, and a plan summing to the delegation leaves nothing on the removed validator; '
+          'later bonds delegate only to validators the registry returns (C02_bond_delegated_in_full). The rewards re-bonded in the same transaction raise delegations and books equally (C02_bond_keeps_gap).',
+  'note': 'Trusted: Lean kernel; registry/hub/chain models; A-CHAIN-3 (redelegation moves token amounts; the can_redelegate flag). The composition over Sys.run of the whole removal transaction (registry -> hub proxy -> staking -> index update) is exercised end to end by the harness, not stated as one theorem.',
+  'technique': 'Lean 4 step theorems composed through C12; end-to-end removal transactions on the implementation',
+ },
+ 'C19': {
+  'text': 'C19_hub_update_global (withdraw messages for every delegation, then swap with the booked totals, then dispatch; only last_index_modification changes in the hub), C19_withdraw_reward_pays_all (everything pending on a validator goes to the withdraw address, nothing else moves), '
+          'C19_dispatch_delivers (C17: keeper cut + everything else forwarded, reward index update last, nothing kept), C19_rebond_raises_stsei_only (stSei pool + re-bonded amount, no mint, bSei pool and rate untouched), with C14_update_records_bank / C14_update_dust for the bSei holders\' side. '
+          'The "executes whatever the amounts" clause inherits D3 (zero-amount transfers; known finding, same three call sites as C17).',
+  'note': 'Trusted: Lean kernel; models of the four contracts; swap/oracle stubs (E6); A-CHAIN-4. The end-to-end theorem over Sys.run is not stated as one theorem; every UpdateGlobalIndex transaction executed on the minichain is judged by the C19 oracle (all clauses). PARTIAL: D3.',
+  'technique': 'Lean 4 per-contract theorems composing the flattened index update; end-to-end oracle on implementation transactions',
+ },
+ 'C09': {
+  'text': 'C09_undelegation_within_books (a true-ratio rate makes floor(requests*rate) <= booked stake, so the checked_sub of the batch undelegation cannot fail), C09_pick_validator_live (undelegation plan exists whenever claim <= delegated, via C12), '
+          'C09_unbond_stsei_live (the hub side of a stSei unbond succeeds from: slashing check ok, monotone time, token registered, and - when the batch closes - the two premises above plus books <= delegations), the first unbond after the epoch undelegates (C08), withdrawal after the period (C01, under its side condition); '
+          'C09_exits_ignore_swap_and_oracle / C09_hub_independent_of_stubs: the exit handlers\' inputs do not contain the stub state and the hub computes identically under any stub behaviour. '
+          'PARTIAL: the bSei unbond and the token-side fault points are not composed into one system-level liveness theorem; known findings D6 (zero-backed pool blocks every undelegation) and D5.',
+  'note': 'Trusted: Lean kernel; hub model; premises are invariants proved in C02/C03/C08. Gas exhaustion of long release loops cannot be exhibited. Known findings D5, D6.',
+  'technique': 'Lean 4 liveness lemmas per fault point + structural non-interference; dry-run exits and stub-mode re-execution on cloned implementation states',
+ },
 }
